@@ -6,12 +6,14 @@ def run(ctx):
     ctx.clause = ("the ABIXML writer and reader agree on element / attribute names, on every enum<->string table, and "
                   "on which element kinds may omit their size; a hash-style type id is registered as used before it is "
                   "handed out (two types never share an id)")
-    ctx.rules = ["R-VOCAB", "R-ENUMTAB", "R-DEFSZ", "R-IDUNIQ"]
+    ctx.rules = ["R-VOCAB", "R-ENUMTAB", "R-DEFSZ", "R-IDUNIQ", "R-QNREFRESH"]
     P = ctx.program(vr.UNITS)
     vr.check_vocab(ctx, P)
     vr.check_enumtab(ctx, P)
     vr.check_defsz(ctx, P)
     from rules import C40
     C40.check_iduniq(ctx, ctx.program(C40.UNITS))
+    from rules import qnrefresh_rule
+    qnrefresh_rule.check(ctx, ctx.program(qnrefresh_rule.UNITS))
     ctx.assume("that attribute *values* (sizes, offsets, ids) are computed and re-interpreted consistently is runtime "
                "behaviour and is not decided")
